@@ -987,7 +987,7 @@ PROPS["C16"] = dict(
 
 PROPS["C08"] = dict(
     profile=dict(enums=(2, 6), types=(0, 2), externs=(0, 0), extern_values=(0, 0), p_markers=0.5, p_singleton=0.2,
-                 p_backend=0.0, fields=(0, 3), p_vftable=0.1, p_impl=0.1, miss=0.25),
+                 p_backend=0.0, fields=(0, 3), p_vftable=0.1, p_impl=0.1, miss=0.25, p_big_discr=0.02),
     n=(400, 6000), corpus=["common", "C08"],
     aspects=["verdict", "enum_repr", "enum_values", "enum_default", "derive", "registry", "items"],
     monitors=[mon_c08],
@@ -1069,8 +1069,7 @@ PROPS["C07"] = dict(
          "and public/private mixes; non-trivial = accepted with a derived type that re-exposes >= 1 function",
     level_text="Proved in Coq (Properties/C07.v): inject_bases appends, per resolved base in region order, one forwarding function per public associated function (and per public virtual function for "
                "bases after the first), copying signature/visibility/doc/convention, with body 'call g on field b'; named g when unused, else <field>_<g>; RustExec: calling it = calling g on the object at self+offset(b), "
-               "that offset being the prefix-sum offset of b. Receiver-less forwarded functions are known finding F10. AsRef/AsMut conversions are covered by correspondence (asref aspects) and the monitor "
-               "(unique base types get both impls with the field path; repeated ones get none), not by a theorem.",
+               "that offset being the prefix-sum offset of b. Receiver-less forwarded functions are known finding F10. AsRef/AsMut conversions (HierSpec.v, Conv*.v): the hierarchy is specified independently of the emitter (bases_of) and equals the emitter's walk for any sufficient fuel; read back from the emitted tokens, the conversion items are exactly one AsRef and one AsMut impl per sub-object whose type occurs once, borrowing self.<field path>, no impl but a _CONFLICTING_ const for a type that occurs more than once, the reflexive pair and nothing else (C07_asref_read/_unique_base/_repeated_base/_nothing_else); the borrowed place is at the sum of the prefix-sum offsets of the nested base fields (C07_asref_offset, under sized regions and distinct field names); C07_asref_whole_build: for every type of an accepted build in its module's file. Correspondence (asref aspects) and the monitor check the same on the real output.",
     level_note="Trusted: Coq kernel; model validated by this run's correspondence; RustExec.v for method calls; the AsRef/AsMut clause is decided by correspondence + monitor only (partial).",
     kf_filter=lambda case: False,
 )
@@ -1144,7 +1143,7 @@ PROPS["C12"] = dict(
          "1 cyclic module/type graph, 1 absurd-number or misuse pattern; plus API cases (pointer sizes 0,1,2,3,5,16,2^31; a module added twice; the root module replaced; invalid identifiers). Each case runs in a harness process "
          "with a wall-clock bound; distinct = distinct input; every distinct input is non-trivial for this property",
     level_text="Proved in Coq (Properties/C12.v): the resolution loop terminates within 1 + #unresolved rounds for every item-count-preserving schedule (all hook schedules, hence all hash orders); the alignment check's unwraps are unreachable; "
-               "size/offset/lcm arithmetic is checked (no wrapped value); C12_front_half_never_panics / C12_front_half_total: for EVERY input, pointer width and schedule the model's front half (registration, loop, finish_build) ends in accepted / error value / no-progress error, never in a panic or out of fuel. Everything the model cannot exhibit (lexer, syn recursion, format_ident!, time, memory) is decided by the monitor: no generated input may make the real pyxis panic, hang or crash, "
+               "size/offset/lcm arithmetic is checked (no wrapped value); C12_front_half_never_panics / C12_front_half_total: for EVERY input, pointer width and schedule the model's front half (registration, loop, finish_build) ends in accepted / error value / no-progress error, never in a panic or out of fuel; C12_emitter_fuel_suffices: the back end's hierarchy walk never exhausts its fuel on an accepted build (no unbounded recursion in write_all). Everything the model cannot exhibit (lexer, syn recursion, format_ident!, time, memory) is decided by the monitor: no generated input may make the real pyxis panic, hang or crash, "
                "both entry points must agree, parse errors must carry file:line:column inside the file, and for inputs that parse the model must agree on the verdict class. Known findings: raw identifiers (F6f), pointer size 0 through the API (F6g), invalid identifiers through the API (F6i).",
     level_note="Trusted: Coq kernel; model validated by this run's correspondence; the process-level bound (10 s per case) as the definition of 'hang'; only the debug profile is exercised (overflow checks on).",
     technique="Coq termination/no-panic proofs on the model + bounded-process robustness monitor on the real implementation",
@@ -1199,7 +1198,7 @@ PROPS["C19"] = dict(
          "one change outside the closure (a new module, removal of an unimported module, a type / enum / singleton type added to an unrelated module); both sets built by the real pyxis; the observed module's file compared by content hash. "
          "10% of the pairs are *related* changes (sanity: they must be able to alter the file). non-trivial = both accepted and the change is unrelated",
     level_text="Proved in Coq (Properties/C19.v): name lookup consults the registry only at scope-derived paths (so entries elsewhere are invisible to it); known sizes/alignments are stable under registry extension; a module's file is assembled only from its own paths/values/blocks (C14). "
-               "C19_locality_abstract: for any two loops of pyxis's shape, the second over more items, whose attempts agree on the first's items (+ M1), accepted builds give the first's items the same values; C19_unrelated_modules (+ _externs): the concrete instance for the model -- two inputs, the second with additional modules, both collision_free and clean, decidable no_capture (the additional items are no lookup candidates of the first input): when both are accepted, under any two schedules, every item and every extern value of the first input has the same resolved value. The emitter for the two builds is not proved (partial); the monitor decides the property on the real code by byte comparison of the observed module's file across unrelated changes.",
+               "C19_locality_abstract: for any two loops of pyxis's shape, the second over more items, whose attempts agree on the first's items (+ M1), accepted builds give the first's items the same values; C19_unrelated_modules (+ _externs): the concrete instance for the model -- two inputs, the second with additional modules, both collision_free and clean, decidable no_capture (the additional items are no lookup candidates of the first input): when both are accepted, under any two schedules, every item and every extern value of the first input has the same resolved value. C19_unrelated_module_file / C19_unrelated_files_written: under the same hypotheses the emitted FILE of every module of the first input is identical in the two builds (equality of outcomes), and every (path, content) the smaller build writes is written identically by the bigger one. no_capture is sufficient, not necessary, and only accepted/accepted pairs are treated; the monitor decides the property on the real code by byte comparison of the observed module's file across unrelated changes.",
     level_note="Trusted: Coq kernel; model validated by this run's correspondence on both sides of every pair; closure computed by the generator from the use lines it wrote.",
 )
 
@@ -1329,7 +1328,7 @@ def match_finding(findings, pid, fail):
 
 # which properties a near-miss of the generator belongs to: accepting it violates them
 MISS_PROPS = {
-    "overlap by one": ["C01", "C02"], "address off alignment by one": ["C01", "C02"], "size one too small": ["C02"],
+    "overlap by one": ["C01", "C02"], "address off alignment by one": ["C01", "C02"], "zero-sized field off alignment by one": ["C01", "C02"], "size one too small": ["C02"],
     "alignment not a power of two": ["C02", "C13"], "packed and align": ["C02"],
     "vfunc index below position": ["C04"], "vftable size below slots": ["C04"],
     "impl function without address": ["C05"], "unresolvable parameter type": ["C05", "C10"], "unresolvable return type": ["C05", "C10"], "extern value without address": ["C15"], "extern type without align": ["C02"],
